@@ -105,6 +105,54 @@ def attribute_branch_ok(sel):
     return True
 
 
+def helper_field_reads(sel):
+    """Which whitelisted helpers read fields NAMED BY THE SELECTOR, and how.
+    returns (helper names, True)   every such read goes through _field_value(r, field), whose body is
+                                   `if field.startswith("__"): raise InvalidOperation(...)` ; `return getattr(r, field, NONE_OBJECT)`
+            (helper names, False)  the helpers call getattr(r, field, ...) themselves (the code before fix cdcae2a)
+    Any other way for a helper to reach getattr/setattr/__dict__ with a non-constant name is Unsupported."""
+    helpers, direct, via = [], [], []
+    for f in sel.FUNCTION_WHITELIST:
+        tree = ast.parse(textwrap.dedent(inspect.getsource(f))).body[0]
+        for node in ast.walk(tree):
+            if isinstance(node, ast.Call) and isinstance(node.func, ast.Name):
+                if node.func.id in ("getattr", "setattr", "delattr", "vars", "eval", "exec", "__import__", "globals", "locals"):
+                    if node.func.id == "getattr" and len(node.args) >= 2 and not isinstance(node.args[1], ast.Constant) \
+                            and ast.unparse(node.args[0]) == "r":
+                        direct.append(f.__name__)
+                    elif node.func.id == "getattr" and len(node.args) >= 2 and isinstance(node.args[1], ast.Constant) \
+                            and not str(node.args[1].value).startswith("__"):
+                        pass
+                    else:
+                        raise Unsupported("helper %s uses %s(...) in an unrecognised way" % (f.__name__, node.func.id))
+                elif node.func.id == "_field_value":
+                    if not (len(node.args) == 2 and ast.unparse(node.args[0]) == "r" and not node.keywords):
+                        raise Unsupported("helper %s: unrecognised _field_value call" % f.__name__)
+                    via.append(f.__name__)
+            if isinstance(node, ast.Attribute) and node.attr in ("__dict__", "__getattribute__", "__class__"):
+                raise Unsupported("helper %s touches %s" % (f.__name__, node.attr))
+    helpers = sorted(set(direct + via), key=lambda n: [g.__name__ for g in sel.FUNCTION_WHITELIST].index(n))
+    if direct and via:
+        raise Unsupported("helpers read fields both directly (%s) and through _field_value (%s)" % (direct, via))
+    if direct:
+        return helpers, False
+    fv = getattr(sel, "_field_value", None)
+    if fv is None:
+        if via:
+            raise Unsupported("_field_value is used but not defined")
+        return helpers, True
+    body = [b for b in ast.parse(textwrap.dedent(inspect.getsource(fv))).body[0].body
+            if not (isinstance(b, ast.Expr) and isinstance(b.value, ast.Constant))]
+    ok = (len(body) == 2 and isinstance(body[0], ast.If) and not body[0].orelse
+          and ast.unparse(body[0].test) in ("field.startswith('__')", 'field.startswith("__")')
+          and len(body[0].body) == 1 and _raises_invalid(body[0].body[0])
+          and isinstance(body[1], ast.Return) and ast.unparse(body[1].value) == "getattr(r, field, NONE_OBJECT)"
+          and [a.arg for a in ast.parse(textwrap.dedent(inspect.getsource(fv))).body[0].args.args] == ["r", "field"])
+    if not ok:
+        raise Unsupported("_field_value does not have the shape `if field.startswith('__'): raise InvalidOperation` ; `return getattr(r, field, NONE_OBJECT)`")
+    return helpers, True
+
+
 def gen_sandbox():
     import flow.record.selector as sel
     from flow.record import RecordDescriptor
@@ -122,11 +170,7 @@ def gen_sandbox():
         v = m.data[k]
         if getattr(v, "__name__", k) != k and k != "fields":
             raise Unsupported("namespace entry %r is bound to a callable of another name" % k)
-    helpers = []
-    for f in sel.FUNCTION_WHITELIST:
-        src = inspect.getsource(f)
-        if "getattr(r, field" in src:
-            helpers.append(f.__name__)
+    helpers, refuse = helper_field_reads(sel)
     # final fallthrough of _eval
     fn = ast.parse(textwrap.dedent(inspect.getsource(sel.RecordContextMatcher._eval))).body[0]
     last = fn.body[-1]
@@ -139,7 +183,8 @@ def gen_sandbox():
     out += "  plain_names := %s;\n" % clist([cstr(x) for x in plain])
     out += "  whitelist := %s;\n" % clist([clist([cstr(p) for p in w.split(".")]) for w in WHITELIST])
     out += "  guard_by_identity := %s;\n" % cbool(by_identity)
-    out += "  helper_names := %s |}.\n\n" % clist([cstr(x) for x in helpers])
+    out += "  helper_names := %s;\n" % clist([cstr(x) for x in helpers])
+    out += "  helpers_refuse_dunder := %s |}.\n\n" % cbool(refuse)
     out += "Definition function_whitelist_names : list string := %s.\n" % clist([cstr(f.__name__) for f in sel.FUNCTION_WHITELIST])
     write_if_changed(GEN / "Gen_sandbox.v", out)
 
